@@ -7,6 +7,7 @@ package main
 // own goroutine) called concurrently on one label under the gate scheduler of gate.go.
 
 import (
+	"encoding/base64"
 	"encoding/json"
 	"fmt"
 	"sync"
@@ -82,6 +83,102 @@ func callConcChangeLabelIndex(raw json.RawMessage) (interface{}, error) {
 			sc := labels.SupervoxelChanges{dl.SV: {izyx: dl.N}}
 			if err := labelmap.ChangeLabelIndex(d, v, a.Label, sc); err != nil {
 				res.Errs[i] = err.Error()
+			}
+		}(i)
+	}
+	res.Gates = gateRun(rq, &wg)
+	return res, nil
+}
+
+// conc.mix: HTTP requests and package-level labelmap.ChangeLabelIndex calls (the index delta a
+// mutating voxel write applies from a background goroutine) run concurrently under the gate
+// scheduler — template "mcli" of Concurrency.tla (body mutation || asynchronous index delta).
+type concPart struct {
+	Kind   string     `json:"kind"` // "http" | "cli"
+	Method string     `json:"method,omitempty"`
+	URL    string     `json:"url,omitempty"`
+	Body   string     `json:"body,omitempty"` // base64
+	UUID   string     `json:"uuid,omitempty"`
+	Name   string     `json:"name,omitempty"`
+	Label  uint64     `json:"label,omitempty"`
+	Delta  concDelta  `json:"delta,omitempty"`
+	Seq    []concPart `json:"seq,omitempty"`
+}
+
+type concMixArgs struct {
+	Parts  []concPart `json:"parts"`
+	Sched  []uint64   `json:"sched"`
+	Sites  []string   `json:"sites"`
+	WaitMS int        `json:"wait_ms"`
+}
+
+type concMixResult struct {
+	Resps []Resp      `json:"resps"`
+	Gates []GateEvent `json:"gates"`
+}
+
+func init() { calls["conc.mix"] = callConcMix }
+
+func callConcMix(raw json.RawMessage) (interface{}, error) {
+	var a concMixArgs
+	if err := json.Unmarshal(raw, &a); err != nil {
+		return nil, err
+	}
+	rq := Req{Sched: a.Sched, WaitMS: a.WaitMS}
+	for i := range a.Parts {
+		rq.Reqs = append(rq.Reqs, Req{ID: uint64(i + 1)})
+	}
+	if len(a.Sites) > 0 {
+		rq.Args, _ = json.Marshal(a.Sites)
+	}
+	res := concMixResult{Resps: make([]Resp, len(a.Parts))}
+	gateBegin(rq)
+	var wg sync.WaitGroup
+	for i := range a.Parts {
+		wg.Add(1)
+		go func(i int) {
+			defer wg.Done()
+			id := uint64(i + 1)
+			defer gateDone(id)
+			defer func() {
+				if e := recover(); e != nil {
+					res.Resps[i] = Resp{ID: id, Status: 599, Err: fmt.Sprintf("PANIC: %v", e)}
+				}
+			}()
+			gateRegister(id)
+			p := a.Parts[i]
+			switch p.Kind {
+			case "http":
+				res.Resps[i] = doHTTP(Req{ID: id, Method: p.Method, URL: p.URL, Body: p.Body})
+			case "cli":
+				d, err := datastore.GetDataByUUIDName(dvid.UUID(p.UUID), dvid.InstanceName(p.Name))
+				if err != nil {
+					res.Resps[i] = Resp{ID: id, Status: 500, Err: err.Error()}
+					return
+				}
+				v, err := datastore.VersionFromUUID(dvid.UUID(p.UUID))
+				if err != nil {
+					res.Resps[i] = Resp{ID: id, Status: 500, Err: err.Error()}
+					return
+				}
+				izyx := dvid.ChunkPoint3d{p.Delta.Block[0], p.Delta.Block[1], p.Delta.Block[2]}.ToIZYXString()
+				sc := labels.SupervoxelChanges{p.Delta.SV: {izyx: p.Delta.N}}
+				if err := labelmap.ChangeLabelIndex(d, v, p.Label, sc); err != nil {
+					res.Resps[i] = Resp{ID: id, Status: 400, Err: err.Error()}
+				} else {
+					res.Resps[i] = Resp{ID: id, Status: 200}
+				}
+			case "seq":
+				// several HTTP requests issued one after the other by one participant; the answer is the
+				// JSON list of the individual answers
+				var out []Resp
+				for _, q := range p.Seq {
+					out = append(out, doHTTP(Req{ID: id, Method: q.Method, URL: q.URL, Body: q.Body}))
+				}
+				b, _ := json.Marshal(out)
+				res.Resps[i] = Resp{ID: id, Status: 200, Body: base64.StdEncoding.EncodeToString(b)}
+			default:
+				res.Resps[i] = Resp{ID: id, Status: 500, Err: "unknown participant kind " + p.Kind}
 			}
 		}(i)
 	}
